@@ -322,13 +322,8 @@ namespace Pistache::Tcp
                     totalWritten += bytesWritten;
                     if (totalWritten >= buffer.size())
                     {
-                        if (buffer.isFile())
-                        {
-                            // done with the file buffer, nothing else knows whether to
-                            // close it with the way the code is written.
-                            ::close(buffer.fd());
-                        }
-
+                        // a file buffer is closed by its holder when the entry is
+                        // popped below
                         cleanUp();
 
                         // Cast to match the type of defered template
